@@ -181,7 +181,7 @@ def check_case(case) -> Result:
     )
     # ------------------------------------------------------------------ oil
     o = case["oil"]
-    To, api, sgo, gor = o["T"], o["api"], o["sg"], o["gor"]
+    To, api, sgo, gor = gens.oil_tuple(o)
     pb = float(lib("pressure_bubblepoint_Standing", O.pressure_bubblepoint_Standing, To, api, sgo, gor))
     straddle = False
     if math.isfinite(pb) and pb > 50:
